@@ -116,6 +116,12 @@ def istep (s : St) : IOp → St
   | .select t => if s.crashed then s else selectTask s t
   | .complete t ok ws res => if s.crashed then s else finish (applyWrites s ws) t ok res
 
+/-- `process_task_result`: the execution is recorded as a success only when the actions succeeded AND
+    `save_success` could store the task's values / result (`codec.encode([task.values, task.result])` raising
+    TypeError / ValueError is turned into a `DependencyError` by the runner, exactly like the FileNotFoundError of a
+    missing dependency: `_handle_task_error` removes the record).  In the model both failures are `complete t false …`. -/
+def completeOk (actionsOk saveable : Bool) : Bool := actionsOk && saveable
+
 def runI (h : List IOp) : St := h.foldl istep St.init
 
 def IOp.faithful : IOp → Bool
@@ -131,6 +137,11 @@ def addDeps (base delivered : List Path) : List Path :=
   base ++ (delivered.filter fun p => !decide (p ∈ base)).eraseDups
 
 def withCalc (d : TaskDef) (delivered : List Path) : TaskDef := { d with deps := addDeps d.deps delivered }
+
+/-- `update_deps` with a result that also carries the key `uptodate` (`_extend_uptodate`: the delivered items are
+    appended to the consumer's uptodate list); keys other than `task_dep file_dep calc_dep uptodate` are ignored -/
+def withCalcU (d : TaskDef) (delivered : List Path) (utd : List Utd) : TaskDef :=
+  { withCalc d delivered with uptodate := d.uptodate ++ utd }
 
 /-! ## saved values and `getargs` -/
 
